@@ -66,6 +66,11 @@ def gen(rng, tier, index):
         late = netgen.make_ops(rng, cfg["version"], 1, dict(WEIGHTS, advance=0, restart=0, garbage=0, invalid_frame=0, ctl_set=0, ctl_fw=0, adopt=0), nodes=(1, 1))[-1]
         ops.append(["restart", {"late_line": late[1] if late[0] == "line" else "1;255;3;0;11;late"}])
     else:
+        if cfg["flavour"] not in ("mqtt", "amqtt") and rng.random() < 0.3:
+            # the link is gone and the gateway is busy re-dialling (in vain) when the application stops it
+            ops.append(["linkdown"])
+            if rng.random() < 0.5:
+                ops.append(["advance", rng.choice([0.5, 5.0, 10.5, 25.0])])
         ops.append(["restart"])
     return {"cfg": cfg, "ops": ops}
 
